@@ -142,3 +142,48 @@ func VerifC14_CancelKeepsOthers() {
 		verif_Assert(n1 == 3, "the listener that did not cancel got everything")
 	}
 }
+
+// C14 (a listener that never reads delays nobody, however many notifications
+// pile up): 40 notifications with one stalled and one reading listener; every
+// one reaches the reader in order, the syncs' sender is never held up, and the
+// stalled listener still gets all of them, in order, once it starts reading.
+func VerifC14_StalledListenerManyEvents() {
+	const n = 40
+	chain := c01chain(1)
+	v := newVSub(chain, -1, 0, 0, true)
+	go v.s.distributeEvents()
+	stalled, cancelStalled := v.s.OnSyncFinished()
+	reader, _ := v.s.OnSyncFinished()
+	for i := 0; i < n; i++ {
+		// what sendSyncFinishedEvent does at the end of a sync
+		v.s.inEvents <- SyncFinished{Cid: chain[0], PeerID: v.peer.ID, Count: i + 1}
+		e := <-reader // (a distributor held up by the stalled listener is reported as a hang)
+		verif_Assert(e.Count == i+1, "the reading listener receives every notification, in order, while another listener does not read")
+	}
+	verif_Reach("all delivered")
+	cancelStalled() // closes the stalled listener's channel after the queued notifications
+	k := 0
+	for e := range stalled {
+		k++
+		verif_Assert(e.Count == k, "the stalled listener finds every notification queued, in order")
+	}
+	verif_Assert(k == n, "no notification was dropped for the listener that read late")
+}
+
+// C14 (the notification carries the block count of the whole sync): a sync
+// fetched in several segments still reports the total number of blocks.
+func VerifC14_CountAcrossSegments() {
+	n := verif_Choose("chainLen", 2, 4)
+	chain := c01chain(n)
+	seg := c01int("segDepthLimit", 1, int64(n))
+	v := newVSub(chain, -1, 0, seg, true)
+	go v.s.distributeEvents()
+	lis, _ := v.s.OnSyncFinished()
+	got, err := v.s.SyncAdChain(context.Background(), v.peer)
+	verif_Assert(err == nil && got == chain[0], "sync succeeds")
+	e := <-lis
+	verif_Reach("notified")
+	verif_Assert(e.Cid == chain[0] && e.PeerID == v.peer.ID && e.Err == nil, "the notification names the synced head and publisher")
+	verif_Assert(e.Count == n, "the notification carries the block count of the whole sync, however many segments it took")
+	verif_Assert(len(v.log) == n, "every block was reported once")
+}
